@@ -121,6 +121,14 @@ func parseSCPSSH(raw string, kind Kind) (*URL, error) {
 		return nil, errors.New("no hostname present")
 	}
 
+	// Reject usernames and hostnames that begin with a dash, because they'd be
+	// interpreted as options by the ssh and scp commands.
+	if beginsWithDash(username) {
+		return nil, errors.New("username begins with a dash")
+	} else if beginsWithDash(hostname) {
+		return nil, errors.New("hostname begins with a dash")
+	}
+
 	// Parse off the port. This is not a standard SCP URL syntax (and even Git
 	// makes you use full SSH URLs if you want to specify a port), so we invent
 	// our own rules here, but essentially we just scan until the next colon,
